@@ -31,6 +31,8 @@ Inductive ntest := TName (pfx n : bytes) | TStar | TText.
 Definition t_prefix (t : tree) : bytes := match t_fs t with FXml p _ => p | _ => [] end.
 Inductive pred :=
 | PPos (k : nat)
+| PLast                      (* [last()] *)
+| PBeforeLast                (* [position() < last()] *)
 | PChildEq (name v : bytes)
 | PAttrEq (a v : bytes)
 | PSelfEq (v : bytes).
@@ -54,6 +56,8 @@ Definition test_ok (t : ntest) (n : tree) : bool :=
 Definition pred_ok (p : pred) (n : tree) : bool :=
   match p with
   | PPos _ => true
+  | PLast => true
+  | PBeforeLast => true
   | PChildEq nm v =>
       existsb (fun k => test_ok (TName [] nm) k && bytes_eqb (inner_text k) v) (t_kids n)
   | PAttrEq a v =>
@@ -68,6 +72,8 @@ Definition apply_pred (p : pred) (cands : list (path * tree)) : list (path * tre
               | O => []
               | S j => match nth_error cands j with Some c => [c] | None => [] end
               end
+  | PLast => match rev cands with c :: _ => [c] | [] => [] end
+  | PBeforeLast => removelast cands
   | _ => filter (fun c => pred_ok p (snd c)) cands
   end.
 
@@ -121,7 +127,7 @@ Definition eval_steps (root : tree) (ss : list step) (ctx : path) : list path :=
 (* ---- concrete syntax ----------------------------------------------------------------------- *)
 Inductive tok :=
 | KSlash | KDSlash | KDot | KDDot | KAt | KStar | KLBr | KRBr | KEq | KLPar | KRPar
-| KName (n : bytes) | KNum (k : nat) | KLit (s : bytes).
+| KName (n : bytes) | KNum (k : nat) | KLit (s : bytes) | KLt.
 
 Definition is_name_char (b : byte) : bool :=
   let n := Byte.to_N b in
@@ -163,6 +169,8 @@ Fixpoint lex (fuel : nat) (s : bytes) : option (list tok) :=
       | x3d :: r => option_map (cons KEq) (lex f r)
       | x28 :: r => option_map (cons KLPar) (lex f r)
       | x29 :: r => option_map (cons KRPar) (lex f r)
+      | x3c :: r => option_map (cons KLt) (lex f r)
+      | x20 :: r => lex f r                       (* white space between tokens *)
       | x27 :: r => match take_until x27 r with
                     | Some (l, t) => option_map (cons (KLit l)) (lex f t)
                     | None => None
@@ -181,7 +189,7 @@ Fixpoint lex (fuel : nat) (s : bytes) : option (list tok) :=
   end.
 
 Definition positional (ps : list pred) : bool :=
-  existsb (fun p => match p with PPos _ => true | _ => false end) ps.
+  existsb (fun p => match p with PPos _ | PLast | PBeforeLast => true | _ => false end) ps.
 
 (* predicates:  [k]  [position()=k]  [.='v']  [@a='v']  [name='v']  *)
 Fixpoint parse_preds (fuel : nat) (ts : list tok) : option (list pred * list tok) :=
@@ -194,6 +202,14 @@ Fixpoint parse_preds (fuel : nat) (ts : list tok) : option (list pred * list tok
       | KLBr :: KName nm :: KLPar :: KRPar :: KEq :: KNum k :: KRBr :: r =>
           if bytes_eqb nm (hx "706f736974696f6e"%string)
           then match parse_preds f r with Some (ps, t) => Some (PPos k :: ps, t) | None => None end
+          else None
+      | KLBr :: KName nm :: KLPar :: KRPar :: KRBr :: r =>
+          if bytes_eqb nm (hx "6c617374"%string)
+          then match parse_preds f r with Some (ps, t) => Some (PLast :: ps, t) | None => None end
+          else None
+      | KLBr :: KName nm :: KLPar :: KRPar :: KLt :: KName nm2 :: KLPar :: KRPar :: KRBr :: r =>
+          if (bytes_eqb nm (hx "706f736974696f6e"%string) && bytes_eqb nm2 (hx "6c617374"%string))%bool
+          then match parse_preds f r with Some (ps, t) => Some (PBeforeLast :: ps, t) | None => None end
           else None
       | KLBr :: KDot :: KEq :: KLit v :: KRBr :: r =>
           match parse_preds f r with Some (ps, t) => Some (PSelfEq v :: ps, t) | None => None end
